@@ -17,14 +17,21 @@ ENGINE = "ecu-groundtruth"
 TECHNIQUE = (
     "runtime monitoring of the real ECU client with a real DBHandler (aiosqlite, real event loop) on a scripted transport: the "
     "transport's wire log (bytes written, raw bytes/faults delivered, order) is compared offline with the scan_result rows read "
-    "back with the sqlite3 module after DBHandler.disconnect(), together with gallia's 'Could not log messages to database' warnings"
+    "back with the sqlite3 module after DBHandler.disconnect(), together with gallia's 'Could not log messages to database' warnings; "
+    "fault injection into the writer task (seeded 'database is locked' failures of INSERTs via a wrapper around the aiosqlite "
+    "connection's execute); runs of a harness UDSScanner through the real entry_point()/setup()/teardown() against an in-process ECU"
 )
 LEVEL_TEXT = (
     "Exploration: generated histories of 1..25 exchanges (every request kind of the codec generators, raw requests, replies of every "
     "response kind, negative replies, pending chains, busy, timeouts, mismatching and malformed replies, connection errors on read and "
     "write, end of stream, failures below the UDS layer; max_retry 0..2) with implicit logging toggled mid-history, ANALYZE and other "
     "tags, and the driving task cancelled or failing between exchanges and while a request awaits its reply; then disconnect() as "
-    "entry_point's finally does. A second family lets several tasks share one client. Held = every row set read back matched its wire log."
+    "entry_point's finally does. A second family lets several tasks share one client. A third (writer faults) makes the INSERT of chosen "
+    "rows - in particular the last one - fail 1..3 times in a row with 'database is locked' while disconnect() follows the last request "
+    "immediately, after a few scheduling points, or after the writer has drained. A fourth runs a UDSScanner subclass that switches implicit "
+    "logging off (twin: leaves it on) in its constructor through entry_point() with setup-phase traffic (ping, ECUReset, properties "
+    "requests), toggles logging in main() and compares scan_result with the transport's log of what was on the wire under which "
+    "setting. Held = every row set read back matched its wire log."
 )
 LEVEL_NOTE = (
     "Trusted: scripted transport vf/dbharness.py (wire log), request generators vf/gen_uds.py, response generators vf/checks/c02.py / "
@@ -33,7 +40,10 @@ LEVEL_NOTE = (
 RULE = (
     "cases = histories (seeded: request kinds x reply/fault scripts x max_retry x tags x implicit-logging toggles x crash point and kind); "
     "non-trivial = at least one exchange was logged and the history has a fault, a toggle, a tag or a crash point; distinct = distinct "
-    "history seeds; distinct_traces = distinct (outcome class, logging, tag, crash) sequences; evaluations = rows compared"
+    "history seeds; distinct_traces = distinct (outcome class, logging, tag, crash) sequences; evaluations = rows compared. Writer-fault "
+    "histories: the same generators without crash point x fault plan (rows x failures in a row x scheduling points before the failure) x "
+    "pacing x how soon disconnect() follows. Scanner runs: seeded options (ping / ECUReset / properties requests / background tester present) "
+    "x main() scripts with logging toggles, each run twice (logging off / on from the constructor); non-trivial = logging toggled between requests"
 )
 ASSUMPTIONS = [
     "a request() whose write was attempted counts as put on the wire; retries belong to their exchange (one row, final outcome)",
@@ -41,18 +51,29 @@ ASSUMPTIONS = [
     "client back-off sleeps are set to zero (ECU.retry_wait = 0) and read timeouts are immediate: the monitor runs on a real event loop",
     "the exception column is compared with repr() of the exception request() raised",
     "a reply that is recorded (response_pdu not NULL) is expected to carry a receive time",
+    "writer faults: the injected failure is aiosqlite.OperationalError('database is locked') raised after at least one scheduling point (sqlite "
+    "reports a lock only after its busy timeout); a row the writer had to retry may get a later id than rows sent after it (the unchanged "
+    "writer re-queues it at the end: counted as writer-fault.order-changed), so with retried rows transmission order is judged on request_time, "
+    "and on ids only among rows that were not retried",
+    "a disconnect() that does not return within 60 s wall clock is reported as a harness error (INCONCLUSIVE), not as a violation",
+    "scanner runs: gallia.plugins.plugin.load_transport and gallia.command.uds.load_ecu are replaced by harness loaders (in-process transport; "
+    "ECU subclass whose properties() sends ReadDataByIdentifier requests); whether logging was wanted for a request is the harness scanner's "
+    "own note at the time the transport saw the write and the read; a request in flight while the preference changes may or may not have a row",
 ]
 EXHAUSTIVE = {"quick": False, "thorough": False}
 EXHAUSTIVE_NOTE = ""
 
+DISCONNECT_GUARD_S = 60.0  # wall-clock guard around DBHandler.disconnect()
 NRCS = [0x10, 0x11, 0x12, 0x13, 0x14, 0x22, 0x24, 0x25, 0x26, 0x31, 0x33, 0x35, 0x36, 0x37, 0x70, 0x71, 0x72, 0x73, 0x7E, 0x7F, 0x92]
 DTC_DICT_SF = iso.DTC_LIST_SF
 
 
 def shards(tier: str, seed: int) -> list[dict[str, Any]]:
     if tier == "quick":
-        return [{"mode": "hist", "base": f"q{seed}-{i}", "n": 260} for i in range(12)] + [{"mode": "conc", "base": f"qc{seed}-{i}", "n": 60} for i in range(2)]
-    return [{"mode": "hist", "base": f"t{seed}-{i}", "n": 3000} for i in range(14)] + [{"mode": "conc", "base": f"tc{seed}-{i}", "n": 1000} for i in range(2)]
+        return ([{"mode": "hist", "base": f"q{seed}-{i}", "n": 260} for i in range(12)] + [{"mode": "conc", "base": f"qc{seed}-{i}", "n": 60} for i in range(2)]
+                + [{"mode": "wf", "base": f"qw{seed}-{i}", "n": 100} for i in range(4)] + [{"mode": "scan", "base": f"qs{seed}-{i}", "n": 12} for i in range(2)])
+    return ([{"mode": "hist", "base": f"t{seed}-{i}", "n": 3000} for i in range(14)] + [{"mode": "conc", "base": f"tc{seed}-{i}", "n": 1000} for i in range(2)]
+            + [{"mode": "wf", "base": f"tw{seed}-{i}", "n": 3000} for i in range(4)] + [{"mode": "scan", "base": f"ts{seed}-{i}", "n": 160} for i in range(2)])
 
 
 def required_reach(tier: str) -> dict[str, int]:
@@ -68,6 +89,16 @@ def required_reach(tier: str) -> dict[str, int]:
         "#crash.index:": 22, "#crash.mid-index:": 18, "crash.cancel-mid.after-retry-or-pending": 5 * k,
         "#reqcls:": 40, "#respcls:": 30 if tier == "quick" else 34, "state.non-default-row": 200 * k, "state.level-row": 30 * k,
         "concurrent.histories": 50 * k, "concurrent.rows": 500 * k, "disconnect.queue-not-empty": 20 * k,
+        # writer faults
+        "writer-fault.histories": 200 * k, "writer-fault.insert-failed": 300 * k, "#writer-fault.failures-in-a-row:": 3,
+        "writer-fault.last-row-failed.disconnect-immediately": 60 * k,
+        "writer-fault.failed-twice-in-a-row-as-last-outstanding-row-while-disconnect-waits": 30 * k,
+        "writer-fault.order-changed": 5 * k, "writer-fault.rows-compared": 300 * k,
+        # scanner runs
+        "scanner.runs": 24 * k, "scanner.started-with-logging-off": 12 * k, "scanner.started-with-logging-on": 12 * k,
+        "scanner.setup-requests.while-logging-off": 12 * k, "scanner.setup-request-recorded.logging-on-from-the-start": 12 * k,
+        "scanner.logging-toggled-between-requests": 30 * k, "scanner.main-requests.while-logging-on": 30 * k,
+        "scanner.main-requests.while-logging-off": 30 * k, "scanner.rows-compared": 100 * k, "#scanner.setup-source:": 3,
     }
 
 
@@ -239,6 +270,40 @@ def gen_history(hseed: str) -> dict[str, Any]:
     return {"hseed": hseed, "max_retry": max_retry, "ex": exs, "crash": crash}
 
 
+def gen_wf_history(hseed: str) -> dict[str, Any]:
+    """a history without crash point plus a plan of writer faults: which rows (in transmission order) fail how often in a row with
+    'database is locked', how the driver is paced against the writer, and how soon disconnect() follows the last request"""
+    rng = random.Random("wf/" + hseed)
+    n = rng.choice([1, 1, 2, 2, 3, 4, 6, rng.randint(1, 10)])
+    max_retry = rng.randrange(3)
+    exs: list[Ex] = []
+    for i in range(n):
+        req, cls, expect, forced = build_request(rng)
+        events = build_events(rng, expect, forced, max_retry)
+        t = rng.random()
+        tag = "ANALYZE" if t < 0.2 else "OTHER" if t < 0.3 else None
+        # the last exchange is always logged: it is the row disconnect() has to wait for
+        exs.append(Ex(req, cls, events, tag, i == n - 1 or rng.random() < 0.92, None))
+    logged = sum(1 for e in exs if e.implicit)
+    plan: dict[str, int] = {}
+    k = rng.random()
+    if k < 0.55:
+        plan[str(logged - 1)] = rng.choice([1, 2, 2, 3, 3])
+    elif k < 0.65:
+        plan[str(logged - 1)] = rng.choice([2, 3])
+        if logged > 1:
+            plan[str(rng.randrange(logged - 1))] = rng.choice([1, 2, 3])
+    else:
+        for _ in range(rng.choice([1, 1, 2, 3])):
+            plan[str(rng.randrange(logged))] = rng.choice([1, 2, 3, 3])
+    c = rng.random()
+    close = "immediately" if c < 0.6 else f"yield-{rng.randint(1, 4)}" if c < 0.85 else "drain"
+    pk = rng.random()
+    pace = [("none" if pk < 0.5 else "drain" if pk < 0.7 else rng.choice(["none", "drain", "yield-1", "yield-3"])) for _ in range(max(0, n - 1))]
+    wf = {"plan": plan, "yields": rng.choice([1, 1, 1, 2, 3]), "pause": rng.choice([0.0, 0.0, 0.0, 0.0, 0.001]), "close": close, "pace": pace}
+    return {"hseed": hseed, "max_retry": max_retry, "ex": exs, "crash": ("none",), "wf": wf}
+
+
 def make_cfg(ex: Ex) -> Any:
     from gallia.services.uds.core.client import UDSRequestConfig
 
@@ -300,9 +365,33 @@ async def run_history(ctx: Any, spec: dict[str, Any], path: Any, catch: dh.Catch
     crash = spec["crash"]
     parked = asyncio.Event()
     catch.take_lost()
+    wfp: dict[str, Any] | None = spec.get("wf")
+    wf: dh.WriterFaults | None = None
+    if wfp is not None:
+        wf = dh.WriterFaults(wfp["plan"], wfp["yields"], wfp["pause"])
+        wf.install(handler)
+
+    async def writer_idle() -> None:
+        """bounded wait until the writer has handed every row it was given to sqlite (harness pacing, not an oracle)"""
+        assert wf is not None
+        for _ in range(400):
+            q = handler._execute_queue
+            if q is not None and q.qsize() == 0 and len(wf.passed()) >= len(wf.rows) and wf.attempts and wf.attempts[-1][1] == "pass":
+                await asyncio.sleep(0.002)  # the commit that follows the INSERT
+                return
+            await asyncio.sleep(0.001)
+
+    async def pace(kind: str) -> None:
+        if kind == "drain":
+            await writer_idle()
+        elif kind.startswith("yield-"):
+            for _ in range(int(kind[6:])):
+                await asyncio.sleep(0)
 
     async def driver() -> None:
         for i, ex in enumerate(spec["ex"]):
+            if wfp is not None and i:
+                await pace(wfp["pace"][i - 1])
             if crash[0] == "cancel-between" and crash[1] == i:
                 parked.set()
                 await asyncio.get_running_loop().create_future()
@@ -353,11 +442,16 @@ async def run_history(ctx: Any, spec: dict[str, Any], path: Any, catch: dh.Catch
     if qsize:
         ctx.reach("disconnect.queue-not-empty")
     scan_run = handler.scan_run
+    if wf is not None and wfp is not None:
+        if wfp["close"] != "immediately":
+            await pace(wfp["close"])
+        wf.closing = True
     # entry_point's finally: the handler is closed whatever happened to the run
-    await asyncio.wait_for(handler.disconnect(), 30)
+    # (a disconnect() that does not return within the guard raises TimeoutError: harness error -> INCONCLUSIVE, to be reproduced by hand)
+    await asyncio.wait_for(handler.disconnect(), DISCONNECT_GUARD_S)
     stray = catch.take_lost()
     rows = dh.read_rows(path)
-    judge(ctx, spec, obs, tr.log, rows, phase, scan_run, stray)
+    judge(ctx, spec, obs, tr.log, rows, phase, scan_run, stray, wf)
 
 
 def outcome_class(o: Obs, wire: list[tuple[Any, ...]]) -> str:
@@ -398,6 +492,8 @@ def describe(spec: dict[str, Any], o: Obs | None, wire: list[tuple[Any, ...]], p
 
 def _describe(spec: dict[str, Any], o: Obs | None, wire: list[tuple[Any, ...]], phase: str, row: dict[str, Any] | None = None) -> dict[str, Any]:
     w: dict[str, Any] = {"hseed": spec["hseed"], "crash": list(spec["crash"]), "phase": phase, "max_retry": spec["max_retry"], "exchanges": len(spec["ex"])}
+    if "wf" in spec:
+        w["family"] = "writer-faults"
     if o is not None:
         w.update({"index": o.i, "request_class": o.ex.cls, "tag": o.ex.tag, "implicit_logging": o.ex.implicit,
                   "wire": [list(e) for e in wire[o.start : o.end]][:12], "result": repr(o.result[1])[:300] if o.result and len(o.result) > 1 else (o.result[0] if o.result else None),
@@ -424,7 +520,8 @@ def not_exact_cause(want: bytes, got: bytes, cls: str) -> str:
     return f"{cls}/" + ("shorter" if len(got) < len(want) else "longer" if len(got) > len(want) else "same-length")
 
 
-def judge(ctx: Any, spec: dict[str, Any], obs: list[Obs], wire: list[tuple[Any, ...]], rows: list[dict[str, Any]], phase: str, scan_run: Any, stray: list[str]) -> None:
+def judge(ctx: Any, spec: dict[str, Any], obs: list[Obs], wire: list[tuple[Any, ...]], rows: list[dict[str, Any]], phase: str, scan_run: Any, stray: list[str],
+          wf: dh.WriterFaults | None = None) -> None:
     crash = spec["crash"]
     ctx.reach(f"histories.{phase}")
     ctx.reach(f"max_retry.{spec['max_retry']}")
@@ -507,6 +604,47 @@ def judge(ctx: Any, spec: dict[str, Any], obs: list[Obs], wire: list[tuple[Any, 
     nontrivial = bool(expected) and (crash[0] != "none" or toggles > 0 or any(t[0] not in ("positive", "negative") or t[2] for t in trace))
     ctx.case(spec["hseed"], nontrivial=nontrivial, n=0)
 
+    # ---- writer faults: which rows did the writer have to retry, and did the table order change because of that
+    retried: set[int] = set()  # indices into `expected`
+    wf_mapped = False
+    wfw: dict[str, Any] = {}
+    if wf is not None:
+        failed = wf.failed()
+        # the i-th expected exchange is the i-th row the writer attempted for the first time (FIFO queue); cross-checked on the bytes
+        wf_mapped = len(wf.rows) <= len(expected) and all(dh.unhex(p[2]) == o.written for p, o in zip(wf.rows, expected))  # type: ignore[attr-defined]
+        retried = set(failed) if wf_mapped else set(range(len(expected)))
+        crit = wf.critical_rows()
+        wfw = {"writer_faults": {"plan": spec["wf"], "attempts": wf.attempts[:40], "rows_first_attempted": len(wf.rows), "expected_rows": len(expected)}}
+        ctx.reach("writer-fault.histories")
+        ctx.reach("writer-fault.insert-failed", sum(failed.values()))
+        for n, j in failed.items():
+            ctx.reach(f"writer-fault.failures-in-a-row:{min(j, 3)}")
+            if wf_mapped and n == len(expected) - 1:
+                ctx.reach("writer-fault.last-row-failed")
+                if spec["wf"]["close"] == "immediately":
+                    ctx.reach("writer-fault.last-row-failed.disconnect-immediately")
+        if any(a[1] == "fail" and a[2] and a[3] == 0 for a in wf.attempts):
+            ctx.reach("writer-fault.failed-as-last-outstanding-row-while-disconnect-waits")
+        if crit:
+            ctx.reach("writer-fault.failed-twice-in-a-row-as-last-outstanding-row-while-disconnect-waits")
+        if not wf_mapped:
+            ctx.reach("writer-fault.rows-not-mapped")
+        if failed:
+            # the unchanged writer puts a failed row back behind the rows queued meanwhile: ids follow the order of the successful
+            # INSERTs.  Under contention transmission order is therefore judged on request_time (and on ids for rows not retried).
+            by_time = sorted(rows, key=lambda r: (r["request_time"], r["id"]))
+            if [r["id"] for r in by_time] != [r["id"] for r in rows]:
+                ctx.reach("writer-fault.order-changed")
+            rows = by_time
+
+    def missing_key(o: Obs) -> str:
+        if wf is None:
+            return f"row-missing/no-warning/{phase}/request-{'returned' if o.result and o.result[0] == 'ok' else 'raised'}"
+        i = expected.index(o)
+        if wf_mapped and i in retried:
+            return "row-missing/after-writer-retry/" + ("last-row-before-disconnect" if i == len(expected) - 1 else "requeued-earlier-row-before-disconnect")
+        return "row-missing/writer-fault-history/" + ("row-not-retried" if wf_mapped else "rows-not-mapped")
+
     # ---- align rows with the expected exchanges
     got = [dh.unhex(r["request_pdu"]) or b"" for r in rows]
     want: list[bytes] = [o.written for o in expected]  # type: ignore[attr-defined]
@@ -520,9 +658,17 @@ def judge(ctx: Any, spec: dict[str, Any], obs: list[Obs], wire: list[tuple[Any, 
         body, got = rows[:-1], got[:-1]
     if got == want:
         pairs = list(zip(expected, body))
+        if wf is not None and retried:
+            ids = [row["id"] for i, (_, row) in enumerate(pairs) if i not in retried]
+            if ids != sorted(ids):
+                ctx.violation("rows/out-of-transmission-order/rows-the-writer-did-not-retry", "rows whose INSERT never failed are not in transmission order by id",
+                              describe(spec, None, wire, phase) | wfw | {"ids_in_transmission_order": ids[:40]})
     elif len(got) == len(want) and sorted(got) == sorted(want):
-        ctx.violation("rows/out-of-transmission-order", "rows are not in transmission order",
-                      describe(spec, None, wire, phase) | {"rows": [g.hex()[:40] for g in got][:30], "wire_order": [w.hex()[:40] for w in want][:30]})
+        if wf is not None and retried and len({r["request_time"] for r in body}) < len(body):
+            ctx.reach("writer-fault.order-undecidable.equal-request-times")  # harness limit: two rows carry the same send time
+            return
+        ctx.violation("rows/out-of-transmission-order" + ("/by-request-time-under-writer-faults" if wf is not None and retried else ""), "rows are not in transmission order",
+                      describe(spec, None, wire, phase) | wfw | {"rows": [g.hex()[:40] for g in got][:30], "wire_order": [w.hex()[:40] for w in want][:30]})
         return
     elif len(got) == len(want) and all(g[:1] == w[:1] for g, w in zip(got, want)):
         for o, row, g, w in zip(expected, body, got, want):
@@ -540,20 +686,20 @@ def judge(ctx: Any, spec: dict[str, Any], obs: list[Obs], wire: list[tuple[Any, 
             try:
                 j = got.index(w, pos)
             except ValueError:
-                ctx.violation(f"row-missing/no-warning/{phase}/request-{'returned' if o.result and o.result[0] == 'ok' else 'raised'}",
-                              "a completed exchange has no row after disconnect() and no warning was logged", describe(spec, o, wire, phase) | {"rows": len(rows), "expected_rows": len(want)})
+                ctx.violation(missing_key(o), "a completed exchange has no row after disconnect() and no warning was logged" + (" (the writer had to retry INSERTs: database locked)" if wf is not None else ""),
+                              describe(spec, o, wire, phase) | wfw | {"rows": len(rows), "expected_rows": len(want)})
                 continue
             used.add(j)
             pos = j + 1
         for j, row in enumerate(body):
             if j not in used:
                 kind = "while-implicit-logging-off" if got[j] in off else "duplicate" if got[j] in want else "unknown-request"
-                ctx.violation(f"row-extra/{kind}", "a row exists that no logged exchange accounts for", describe(spec, None, wire, phase, row))
+                ctx.violation(f"row-extra/{kind}" + ("/under-writer-faults" if wf is not None else ""), "a row exists that no logged exchange accounts for", describe(spec, None, wire, phase, row) | wfw)
 
     # ---- field by field
     for o, row in pairs:
         ctx.evals()
-        ctx.reach("rows.compared")
+        ctx.reach("rows.compared" if wf is None else "writer-fault.rows-compared")
         if row["run"] != scan_run:
             ctx.violation("row/wrong-run", "row does not belong to the scan run of this handler", describe(spec, o, wire, phase, row))
         fin: bytes | None = o.final  # type: ignore[attr-defined]
@@ -680,11 +826,302 @@ async def run_concurrent(ctx: Any, hseed: str, path: Any, catch: dh.Catcher) -> 
             ctx.violation("time/send-after-receive", "request_time is later than response_time", w0 | {"request": q})
 
 
+# ---- scanner runs: the command layer hands the scanner's implicit-logging preference to the client ---------------------
+_SCAN: dict[str, Any] = {}
+SCAN_GUARD_S = 90.0  # wall-clock guard around one batch of entry_point() runs
+
+
+def define_scanner() -> dict[str, Any]:
+    """harness UDSScanner (real setup() / teardown() through super(), real entry_point()) and the ECU class it is given"""
+    if _SCAN:
+        return _SCAN
+    import gallia.command  # noqa: F401  (before gallia.plugins.plugin)
+    from gallia.command.uds import UDSScanner, UDSScannerConfig
+    from gallia.services.uds.core.client import UDSRequestConfig
+    from gallia.services.uds.core.exception import UDSException
+    from gallia.services.uds.ecu import ECU, ECUProperties
+
+    class C11ECU(ECU):
+        """an OEM client whose properties() asks the ECU for something (the generic one sends nothing): the identifiers are
+        configured per run on the transport"""
+
+        async def properties(self, fresh: bool = False, config: Any = None) -> Any:
+            for did in getattr(self.transport, "props_dids", []):
+                await self.read_data_by_identifier(did, config=config)
+            return ECUProperties()
+
+    class C11Scanner(UDSScanner):
+        CONFIG_TYPE = UDSScannerConfig
+        SHORT_HELP = "C11 harness scanner: logs only what it asks for"
+        pending: dict[str, Any] = {}
+
+        def __init__(self, config: Any) -> None:
+            super().__init__(config)
+            self.plan: dict[str, Any] = dict(type(self).pending)
+            self.phase = "constructed"
+            self.wanted = True  # the harness's own note of what the scanner asked for
+            if self.plan["start"] == "off":
+                self.implicit_logging = False  # as the dump-seeds scanner does in its constructor
+                self.wanted = False
+            elif self.plan["start"] == "on-explicit":
+                self.implicit_logging = True
+
+        async def setup(self) -> None:
+            self.phase = "setup"
+            await super().setup()
+
+        async def main(self) -> None:
+            self.phase = "main"
+            self.ecu.retry_wait = 0.0
+            for op in self.plan["main"]:
+                cfg = UDSRequestConfig(tags=["ANALYZE"]) if op[-1] == "ANALYZE" else UDSRequestConfig(tags=["OTHER"]) if op[-1] == "OTHER" else None
+                try:
+                    if op[0] == "set":
+                        self.implicit_logging = bool(op[1])
+                        self.wanted = bool(op[1])
+                    elif op[0] == "sleep":
+                        await asyncio.sleep(op[1])
+                    elif op[0] == "rdbi":
+                        await self.ecu.read_data_by_identifier(op[1], config=cfg)
+                    elif op[0] == "ping":
+                        await self.ecu.ping(config=cfg)
+                    elif op[0] == "seed":
+                        await self.ecu.security_access_request_seed(op[1], config=cfg)
+                    elif op[0] == "dsc":
+                        await self.ecu.diagnostic_session_control(op[1], config=cfg)
+                    else:
+                        raise AssertionError(op)
+                except (UDSException, ConnectionError):
+                    pass
+
+        async def teardown(self) -> None:
+            self.phase = "teardown"
+            await super().teardown()
+
+    _SCAN.update({"scanner": C11Scanner, "ecu": C11ECU, "config": UDSScannerConfig})
+    return _SCAN
+
+
+async def scan_responder(q: bytes) -> list[bytes]:
+    sid = q[0]
+    if sid == 0x3E:
+        return [] if q[1:2] == b"\x80" else [b"\x7e\x00"]
+    if sid == 0x11:
+        return [bytes([0x51, q[1]])]
+    if sid == 0x10:
+        return [bytes([0x50, q[1] & 0x7F, 0, 50, 1, 244])]
+    if sid == 0x27:
+        return [bytes([0x67, q[1]]) + (b"\x11\x22\x33\x44" if q[1] % 2 else b"")]
+    if sid == 0x22 and len(q) == 3:
+        if q[1] == 0xEE:
+            return []  # the ECU stays silent
+        if q[1] == 0xDD:
+            return [b"\x7f\x22\x31"]
+        return [b"\x62" + q[1:3] + q[1:3]]
+    return [bytes([0x7F, sid, 0x11])]
+
+
+def gen_scan(hseed: str) -> dict[str, Any]:
+    """options and main() script of one scanner; it is run twice: starting with implicit logging off, and (twin) on"""
+    rng = random.Random("scan/" + hseed)
+    ping = rng.random() < 0.8
+    ecu_reset = 1 if rng.random() < 0.3 else None
+    props = rng.choice([[], [], [0xF190], [0xF190, 0xF18C]])
+    if not (ping or ecu_reset or props):
+        ping = True
+    tester_present = rng.random() < 0.25
+    did = [0x1000 + rng.randrange(0x100) * 0x10]
+
+    def request() -> list[Any]:
+        did[0] += 1
+        tag = rng.choice([None, None, None, "ANALYZE", "ANALYZE", "OTHER"])
+        k = rng.random()
+        if k < 0.5:
+            return ["rdbi", did[0], tag]
+        if k < 0.6:
+            return ["rdbi", 0xEE00 | (did[0] & 0xFF), tag]
+        if k < 0.7:
+            return ["rdbi", 0xDD00 | (did[0] & 0xFF), tag]
+        if k < 0.8:
+            return ["ping", tag]
+        if k < 0.9:
+            return ["seed", rng.choice([1, 3, 0x11]), tag]
+        return ["dsc", rng.choice([1, 2, 3]), tag]
+
+    # quiet / logged / quiet (/ logged ...): logging is switched on for some requests and off again
+    ops: list[list[Any]] = []
+    for _ in range(rng.randint(0, 3)):
+        ops.append(request())
+    value = True
+    for _ in range(rng.choice([2, 2, 2, 3, 4])):
+        ops.append(["set", value])
+        for _ in range(rng.randint(1, 4)):
+            ops.append(request())
+        value = not value
+    if tester_present:
+        for _ in range(2):
+            ops.insert(rng.randint(0, len(ops)), ["sleep", 0.03])
+    options = {"ping": ping, "ecu_reset": ecu_reset, "properties": bool(props) or rng.random() < 0.5, "tester_present": tester_present,
+               "tester_present_interval": 0.01, "timeout": 0.05, "max_retries": 0}
+    return {"hseed": hseed, "options": options, "props_dids": props, "main": ops}
+
+
+async def run_scan_batch(ctx: Any, batch: list[tuple[dict[str, Any], str]], scratch: Any, catch: dh.Catcher, tag: str) -> None:
+    """runs the scanners of `batch` ((plan, start) pairs) concurrently on this loop - each with its own transport, ECU and
+    database file - through the real BaseCommand.entry_point(), then judges each run on its own wire log and rows"""
+    import gallia.command.uds as guds
+    from gallia.transports.base import TargetURI
+
+    d = define_scanner()
+    catch.take_lost()
+    runs: list[dict[str, Any]] = []
+    orig_load_ecu = guds.load_ecu
+    guds.load_ecu = lambda vendor: d["ecu"]  # type: ignore[assignment]
+    try:
+        with dh.TransportLoaders() as loaders:
+            for n, (plan, start) in enumerate(batch):
+                target = f"tcp-lines://127.0.0.1:{2000 + n}"
+                path = scratch / f"c11-scan-{tag}-{n}.sqlite"
+                holder: dict[str, Any] = {}
+                tr = dh.ScanTransport(TargetURI(target), scan_responder, lambda h=holder: (h["s"].phase, h["s"].wanted) if "s" in h else ("no-scanner", True))
+                tr.props_dids = list(plan["props_dids"])  # type: ignore[attr-defined]
+                loaders.register(target, tr)
+                config = d["config"](target=target, db=path, dumpcap=False, hooks=False, artifacts_base=None, power_supply=None, **plan["options"])
+                d["scanner"].pending = {"start": start, "main": plan["main"]}
+                scanner = d["scanner"](config)
+                holder["s"] = scanner
+                runs.append({"plan": plan, "start": start, "path": path, "tr": tr, "scanner": scanner})
+            try:
+                codes = await asyncio.wait_for(asyncio.gather(*(r["scanner"].entry_point() for r in runs), return_exceptions=True), SCAN_GUARD_S)
+            except TimeoutError:
+                raise RuntimeError(f"scanner batch {tag} did not finish within {SCAN_GUARD_S}s: {[r['plan']['hseed'] + '/' + r['start'] for r in runs]}") from None
+    finally:
+        guds.load_ecu = orig_load_ecu  # type: ignore[assignment]
+    lost = catch.take_lost()
+    try:
+        if lost:
+            ctx.violation("row-lost/scanner-run", "'Could not log messages to database' during a scanner run", {"family": "scanner", "hseed": batch[0][0]["hseed"], "warnings": lost[:5]})
+        for r, code in zip(runs, codes):
+            if code != 0:
+                raise RuntimeError(f"harness scanner {r['plan']['hseed']}/{r['start']} ended with {code!r}, wire={len(r['tr'].log)}")
+            judge_scan(ctx, r, dh.read_rows(r["path"]))
+    finally:
+        for r in runs:
+            for suffix in ("", "-wal", "-shm"):
+                p = r["path"].with_name(r["path"].name + suffix)
+                if p.exists():
+                    p.unlink()
+
+
+def judge_scan(ctx: Any, r: dict[str, Any], rows: list[dict[str, Any]]) -> None:
+    import difflib
+    import itertools
+
+    plan, start, wire = r["plan"], r["start"], r["tr"].log
+    scan_run = r["scanner"].db_handler.scan_run if r["scanner"].db_handler is not None else None
+    ctx.reach("scanner.runs")
+    ctx.reach("scanner.started-with-logging-" + ("off" if start == "off" else "on"))
+    w0 = {"family": "scanner", "hseed": plan["hseed"], "start": start, "options": plan["options"], "props_dids": plan["props_dids"], "main": plan["main"],
+          "wire": [[e["at_write"][0], e["at_write"][1], e["at_read"][1] if e["at_read"] else None, e["q"].hex(), [x.hex() for x in e["replies"]]] for e in wire][:60],
+          "rows": [[x["id"], x["request_pdu"] if isinstance(x["request_pdu"], str) else repr(x["request_pdu"]), x["log_mode"]] for x in rows][:60]}
+    # what the transport saw: was logging wanted while the request was on the wire
+    sure: list[bool | None] = []
+    for e in wire:
+        w = e["at_write"][1]
+        rd = e["at_read"][1] if e["at_read"] is not None else None
+        sure.append(w if rd == w else None)  # None: the preference changed (or the exchange was cut off) while the request was in flight
+        ph = e["at_write"][0]
+        ctx.reach(f"scanner.{ph}-requests.while-logging-" + ("undecided" if sure[-1] is None else "on" if sure[-1] else "off"))
+        if ph == "setup":
+            ctx.reach("scanner.setup-source:" + {0x3E: "ping", 0x11: "ecu-reset", 0x22: "properties"}.get(e["q"][0], "other"))
+        if ph == "main" and e["q"][:1] == b"\x3e" and plan["options"]["tester_present"]:
+            ctx.reach("scanner.main-pings-with-background-tester-present")
+    toggles = sum(1 for a, b in zip(wire, wire[1:]) if a["at_write"][1] != b["at_write"][1])
+    ctx.reach("scanner.logging-toggled-between-requests", toggles)
+    ctx.case(("scan", plan["hseed"], start), nontrivial=toggles > 0, n=0)
+    ctx.trace(("scan", tuple((e["at_write"][0], s, e["q"][0]) for e, s in zip(wire, sure))))
+
+    got = [dh.unhex(x["request_pdu"]) or b"" for x in rows]
+    undecided = [i for i, s in enumerate(sure) if s is None]
+    chosen: list[int] | None = None
+    if len(undecided) <= 6:
+        for pick in itertools.product([False, True], repeat=len(undecided)):
+            on = [i for i, s in enumerate(sure) if s or (s is None and pick[undecided.index(i)])]
+            if [wire[i]["q"] for i in on] == got:
+                chosen = on
+                break
+    if chosen is None:
+        on = [i for i, s in enumerate(sure) if s]
+        want = [wire[i]["q"] for i in on]
+        sm = difflib.SequenceMatcher(a=want, b=got, autojunk=False)
+        for op, i1, i2, j1, j2 in sm.get_opcodes():
+            if op == "equal":
+                continue
+            for i in range(i1, i2):
+                e = wire[on[i]]
+                ctx.violation(f"row-missing/scanner-run/{e['at_write'][0]}-traffic-while-implicit-logging-on",
+                              "a request the scanner sent with implicit logging switched on has no row", w0 | {"request": e["q"].hex(), "wire_index": on[i]})
+            lo = on[i1 - 1] if i1 > 0 else -1
+            hi = on[i2] if i2 < len(on) else len(wire)
+            for j in range(j1, j2):
+                near = [k for k in range(lo + 1, hi) if wire[k]["q"] == got[j] and not sure[k]]
+                anyw = [k for k in range(len(wire)) if wire[k]["q"] == got[j] and not sure[k]]
+                k = (near or anyw or [None])[0]
+                if k is not None:
+                    key = f"row-extra/{wire[k]['at_write'][0]}-traffic-while-implicit-logging-off"
+                    what = "a request sent while the scanner had implicit logging switched off was recorded"
+                elif got[j] in want:
+                    key, what = "row-extra/scanner-run/duplicate", "a request was recorded twice"
+                else:
+                    key, what = "row-extra/scanner-run/unknown-request", "a row exists for a request the transport never saw"
+                ctx.violation(key, what, w0 | {"row": [rows[j]["id"], got[j].hex(), rows[j]["log_mode"]], "wire_index": k})
+        return
+    for i, row in zip(chosen, rows):
+        e = wire[i]
+        ctx.evals()
+        ctx.reach("scanner.rows-compared")
+        ph = e["at_write"][0]
+        if ph == "setup":
+            ctx.reach("scanner.setup-request-recorded.logging-on-from-the-start")
+        wd = w0 | {"request": e["q"].hex(), "row": {k: row[k] for k in ("id", "run", "log_mode", "request_pdu", "response_pdu", "exception")}}
+        if row["run"] != scan_run:
+            ctx.violation("row/wrong-run/scanner-run", "row does not belong to the scan run of this scanner", wd)
+        if sure[i] is None:
+            continue  # cut off or straddling a toggle: only its presence was judged
+        fin = e["replies"][-1] if e["replies"] else None
+        if dh.unhex(row["response_pdu"]) != fin:
+            ctx.violation("response_pdu/differs/scanner-run", "row carries another reply than the one delivered for this request", wd | {"delivered": fin})
+        if (row["exception"] is None) != (fin is not None):
+            ctx.violation("exception/" + ("unexpected" if fin is not None else "missing") + "/scanner-run", "exception column does not match the outcome of the request", wd)
+        want_mode = "emphasized" if "ANALYZE" in e["tags"] else "implicit"
+        if row["log_mode"] != want_mode:
+            ctx.violation(f"log_mode/{row['log_mode']}-instead-of-{want_mode}/scanner-run", "log_mode is not what the request asked for", wd)
+        if row["response_time"] is not None and row["request_time"] > row["response_time"]:
+            ctx.violation("time/send-after-receive", "request_time is later than response_time", wd)
+    if ctx.rng.random() < 0.1:
+        ctx.sample(w0)
+
+
+async def run_scans(ctx: Any, seeds: list[str], scratch: Any, catch: dh.Catcher, batch_size: int = 8) -> None:
+    todo: list[tuple[dict[str, Any], str]] = []
+    for hs in seeds:
+        plan = gen_scan(hs)
+        todo.append((plan, "off"))
+        todo.append((plan, "on" if random.Random("twin/" + hs).random() < 0.7 else "on-explicit"))
+    for b in range(0, len(todo), batch_size):
+        if ctx.out_of_time():
+            break
+        await run_scan_batch(ctx, todo[b : b + batch_size], scratch, catch, str(b))
+
+
 # ---- entry points -----------------------------------------------------------------------------------------
 async def arun(ctx: Any, params: dict[str, Any], only: str | None = None) -> None:
     catch = dh.install_catcher()
     scratch = ctx.mkscratch()
     seeds = [only] if only else [f"{params['base']}/{i}" for i in range(params["n"])]
+    if params["mode"] == "scan":
+        await run_scans(ctx, seeds, scratch, catch)
+        return
     for n, hseed in enumerate(seeds):
         if ctx.out_of_time():
             break
@@ -692,6 +1129,8 @@ async def arun(ctx: Any, params: dict[str, Any], only: str | None = None) -> Non
         try:
             if params["mode"] == "conc":
                 await run_concurrent(ctx, hseed, path, catch)
+            elif params["mode"] == "wf":
+                await run_history(ctx, gen_wf_history(hseed), path, catch)
             else:
                 await run_history(ctx, gen_history(hseed), path, catch)
         finally:
@@ -710,5 +1149,5 @@ def run(ctx: Any, params: dict[str, Any]) -> None:
 def replay(ctx: Any, witness: dict[str, Any]) -> None:
     import gallia.command  # noqa: F401
 
-    mode = "conc" if witness.get("family") == "concurrent" else "hist"
+    mode = {"concurrent": "conc", "writer-faults": "wf", "scanner": "scan"}.get(witness.get("family"), "hist")
     asyncio.run(arun(ctx, {"mode": mode}, only=witness["hseed"]))
